@@ -1,8 +1,11 @@
 package checks
 
 import (
+	"bytes"
 	"fmt"
 	"strings"
+
+	"github.com/wkhere/bcl"
 
 	"verif/mc/impl"
 
@@ -233,10 +236,21 @@ func init() {
 	registerSeq(seqSpec{
 		id: "C04",
 		rule: "explicit enumeration of all toplevel statement sequences up to length L (quick 5, thorough 6; rejected prefixes are not extended) over a 30-symbol alphabet: three distinguishable block definitions of two types, bind with every selector (none, 1, first, last, all) x target (struct, slice), " +
-			"bind of another / of a missing type, the compile-error forms (:all->struct, :2, :foo, ->oops), a bind inside a block, a block of the bound type nested inside another block (must not be selected), a runtime error. Compared with a trivial reference: binding kind and exact blocks, runtime-error class, rejection, one warning per bind after the first, nil binding without bind.",
+			"bind of another / of a missing type, the compile-error forms (:all->struct, :2, :foo, ->oops), a bind inside a block, a block of the bound type nested inside another block (must not be selected), a runtime error. Compared with a trivial reference: binding kind and exact blocks, runtime-error class, rejection, one warning per bind after the first, nil binding without bind. " +
+			"c04.warn: every sequence of 2-3 bind statements (6 forms) after three blocks, run as Interpret, Parse+Execute twice, Dump+LoadProg+Execute, Execute with trace/statistics into a writer of their own, and with a log writer that fails / accepts one byte per write: same blocks, binding, error, and the same warnings on the log writer.",
 		sub: newRefSub("c04.seq"), alpha: a4,
-		moreSubs: []*fw.Sub{subC04Kept},
+		moreSubs: []*fw.Sub{subC04Kept, subC04Warn},
 		moreRun: func(c *fw.Ctx) {
+			// every sequence of 2-3 bind statements after three blocks, run along every way a program can be run
+			binds := []string{"bind a:first -> struct", "bind a:all -> slice", "bind b -> struct", "bind a:last -> slice", "bind a -> struct", "bind zz -> struct"}
+			for _, b1 := range binds {
+				for _, b2 := range binds {
+					c.Do(subC04Warn, &progCase{Src: c04WarnPre + b1 + "\n" + b2})
+					for _, b3 := range binds {
+						c.Do(subC04Warn, &progCase{Src: c04WarnPre + b1 + "\nprint 1\n" + b2 + "\n" + b3})
+					}
+				}
+			}
 			n := len(c04KeptProgs)
 			for a := 0; a < n; a++ {
 				for b := 0; b < n; b++ {
@@ -259,6 +273,107 @@ func init() {
 		mustSee: []string{"accepted-ok", "accepted-rterr:bind-none", "accepted-rterr:bind-count", "rejected:all-needs-slice", "rejected:selector", "rejected:target"},
 	})
 }
+
+// ---------------------------------------------------------------- C04: warnings of repeated binds on every execution path
+
+const c04WarnPre = "def a { x = 1 }\ndef a \"n\" { x = 2 }\ndef b { y = 1 }\n"
+
+// failWriter fails every write; shortWriter accepts one byte per write without an error.
+type failWriter struct{ n int }
+
+func (w *failWriter) Write(p []byte) (int, error) {
+	w.n++
+	return 0, fmt.Errorf("log writer is closed")
+}
+
+type shortWriter struct{ buf bytes.Buffer }
+
+func (w *shortWriter) Write(p []byte) (int, error) {
+	if len(p) == 0 {
+		return 0, nil
+	}
+	w.buf.WriteByte(p[0])
+	return 1, nil
+}
+
+// c04.warn: the outcome of Interpret (blocks, binding, error, warnings on the log writer) is the baseline;
+// the same program run as Parse+Execute, executed twice, dumped+loaded+executed, executed with trace and
+// statistics into separate writers, or with a log writer that fails or accepts short writes, must give the
+// same blocks, binding and error, and (where the log writer works) the same warnings on the log writer.
+var subC04Warn = &fw.Sub{Name: "c04.warn", New: func() fw.Case { return &progCase{} }, Exec: func(cs fw.Case) *fw.Fail {
+	c := cs.(*progCase)
+	return fw.Guard(func() *fw.Fail {
+		base := impl.Interpret(c.Src)
+		want := fmt.Sprintf("err=%q blocks=%s binding=%s", base.ErrText(), impl.BlocksStr(base.Blocks), impl.BindingStr(base.Binding))
+		sum := func(bl []bcl.Block, bi bcl.Binding, err error) string {
+			return fmt.Sprintf("err=%q blocks=%s binding=%s", impl.Ran{Err: err}.ErrText(), impl.BlocksStr(bl), impl.BindingStr(bi))
+		}
+		differs := func(what, got, log string, checkLog bool) *fw.Fail {
+			if got != want {
+				return fw.Failf(what+": same blocks, binding and error as Interpret: "+fw.Trunc(want, 300), "%s", fw.Trunc(got, 300))
+			}
+			if checkLog && log != base.Log {
+				return fw.Failf(what+fmt.Sprintf(": the log writer receives the same warnings as with Interpret: %q", base.Log), "%q", log)
+			}
+			return nil
+		}
+		// two steps, twice
+		var out, log bytes.Buffer
+		p, err := bcl.Parse([]byte(c.Src), "input", bcl.OptOutput(&out), bcl.OptLogger(&log))
+		if err != nil {
+			fw.TallyOutcome("rejected")
+			return nil
+		}
+		if log.Len() > 0 {
+			return fw.Failf("nothing on the log writer before the program runs", "Parse wrote %q", log.String())
+		}
+		for i := 0; i < 2; i++ {
+			log.Reset()
+			bl, bi, xerr := bcl.Execute(p)
+			if f := differs(fmt.Sprintf("Parse + Execute (execution %d)", i+1), sum(bl, bi, xerr), log.String(), true); f != nil {
+				return f
+			}
+		}
+		// dumped and loaded
+		var dmp bytes.Buffer
+		if derr := p.Dump(&dmp); derr == nil {
+			var out2, log2 bytes.Buffer
+			if q, lerr := bcl.LoadProg(&dmp, "input", bcl.OptOutput(&out2), bcl.OptLogger(&log2)); lerr == nil {
+				bl, bi, xerr := bcl.Execute(q)
+				if f := differs("Dump + LoadProg + Execute", sum(bl, bi, xerr), log2.String(), true); f != nil {
+					return f
+				}
+			}
+		}
+		// trace / statistics with a writer of their own
+		for mask := 1; mask < 4; mask++ {
+			log.Reset()
+			var xout bytes.Buffer
+			bl, bi, xerr := bcl.Execute(p, bcl.OptTrace(mask&1 != 0), bcl.OptStats(mask&2 != 0), bcl.OptOutput(&xout))
+			if f := differs(fmt.Sprintf("Execute(trace=%v stats=%v)", mask&1 != 0, mask&2 != 0), sum(bl, bi, xerr), log.String(), true); f != nil {
+				return f
+			}
+		}
+		// a log writer that fails, and one that takes a byte at a time: warnings never make the run fail
+		fwr := &failWriter{}
+		bl, bi, xerr := bcl.Interpret([]byte(c.Src), bcl.OptOutput(&bytes.Buffer{}), bcl.OptLogger(fwr))
+		if f := differs("Interpret with a log writer that fails every write", sum(bl, bi, xerr), "", false); f != nil {
+			return f
+		}
+		swr := &shortWriter{}
+		bl, bi, xerr = bcl.Interpret([]byte(c.Src), bcl.OptOutput(&bytes.Buffer{}), bcl.OptLogger(swr))
+		if f := differs("Interpret with a log writer that accepts one byte per write", sum(bl, bi, xerr), "", false); f != nil {
+			return f
+		}
+		if strings.Contains(base.Log, "WARNING") {
+			fw.TallyOutcome("warned")
+		} else {
+			fw.TallyOutcome("no-warning")
+		}
+		fw.TallyNontrivial()
+		return nil
+	})
+}}
 
 // ---------------------------------------------------------------- C04: a returned Binding stays what it was
 
